@@ -98,8 +98,12 @@ func start(bin string, o Opts) (*Proc, error) {
 	if scheme == "" {
 		scheme = "http"
 	}
+	lvl := os.Getenv("VERIF_BIN_LOGLEVEL")
+	if lvl == "" {
+		lvl = "ERROR"
+	}
 	args := []string{o.Role,
-		"--log-level=ERROR",
+		"--log-level=" + lvl,
 		fmt.Sprintf("--api.address=%s://127.0.0.1:%d", scheme, api),
 		fmt.Sprintf("--rest.address=http://127.0.0.1:%d", rest),
 		fmt.Sprintf("--raft.address=127.0.0.1:%d", raft),
